@@ -214,19 +214,55 @@ func (fc *fileCtx) mcCall(name string, args ...ast.Expr) *ast.CallExpr {
 	return &ast.CallExpr{Fun: &ast.SelectorExpr{X: ast.NewIdent("verifmc"), Sel: ast.NewIdent(name)}, Args: args}
 }
 
+// isChan reports whether e (possibly already wrapped by the access pass, whose new
+// nodes carry no type information) is a channel. An expression whose type cannot be
+// determined, or a type parameter whose core type is a channel, is a hard error: a
+// channel operation left in place would block outside the controlled scheduler.
 func (fc *fileCtx) isChan(e ast.Expr) bool {
-	t := fc.info.TypeOf(e)
+	o := origOf(ast.Unparen(e))
+	t := fc.info.TypeOf(o)
 	if t == nil {
-		return false
+		fatalf("%s: cannot determine the type of the range expression (unsupported construct)", fc.pos(e))
 	}
 	switch u := t.Underlying().(type) {
 	case *types.Chan:
 		return true
-	case *types.TypeParam:
-		_ = u
-		return false
+	case *types.Interface:
+		if tp, ok := t.(*types.TypeParam); ok {
+			_ = tp
+			if _, isCh := coreType(u).(*types.Chan); isCh {
+				fatalf("%s: range over a type parameter with channel core type (unsupported construct)", fc.pos(e))
+			}
+		}
 	}
 	return false
+}
+
+// coreType returns the single underlying type shared by all terms of a constraint interface, or nil.
+func coreType(i *types.Interface) types.Type {
+	var core types.Type
+	for k := 0; k < i.NumEmbeddeds(); k++ {
+		switch e := i.EmbeddedType(k).(type) {
+		case *types.Union:
+			for j := 0; j < e.Len(); j++ {
+				u := e.Term(j).Type().Underlying()
+				if core != nil && !types.Identical(core, u) {
+					return nil
+				}
+				core = u
+			}
+		default:
+			u := e.Underlying()
+			if _, isI := u.(*types.Interface); isI {
+				continue
+			}
+			if core != nil && !types.Identical(core, u) {
+				return nil
+			}
+			core = u
+		}
+	}
+	return core
 }
 
 func (fc *fileCtx) isBuiltin(e ast.Expr, name string) bool {
@@ -497,4 +533,9 @@ func (fc *fileCtx) rewriteSelect(n *ast.SelectStmt) ast.Stmt {
 		sw.Body.List = append(sw.Body.List, &ast.CaseClause{List: []ast.Expr{lit}, Body: append(body, cc.Body...)})
 	}
 	return &ast.BlockStmt{List: append(stmts, sw)}
+}
+
+func fatalf(format string, a ...any) {
+	fmt.Fprintf(os.Stderr, "instr: "+format+"\n", a...)
+	os.Exit(3)
 }
